@@ -345,17 +345,23 @@ static std::vector<double> make_tones(int N, long long K, const std::vector<doub
 static void run_measure(Ctx& ctx, bool T) {
     struct LenPlan {
         int N;
-        bool full;   // full level product (thorough) or the reduced pattern set
+        bool full;      // full level product (thorough) instead of the 8-pattern set
+        bool reduced;   // reduced grid: H in {1,3,5}, 2 level patterns, offsets {0, 0.25, 0.73}, 2 phase letters
     };
-    std::vector<LenPlan> lens = {{2048, T}, {4096, T}, {5000, T}, {8192, T}};
+    // odd lengths (the one-sided spectrum then has no Nyquist bin and (nfft or len-1)/2 bins: the bin <-> frequency map matters)
+    std::vector<LenPlan> lens = {{2048, T, false}, {4096, T, false}, {5000, T, false}, {8192, T, false},
+                                 {2049, false, !T}, {4095, false, !T}, {5001, false, !T}, {8191, false, !T}, {10001, false, !T}};
     if (T) {
-        lens.push_back({10000, false});
-        lens.push_back({1 << 17, false});
+        lens.push_back({10000, false, false});
+        lens.push_back({1 << 17, false, false});
+        lens.push_back({32767, false, true});
+        lens.push_back({100003, false, true});
     }
     for (const LenPlan& lp : lens) {
         const int N = lp.N;
         if (!ctx.wants("measure.tones") && !ctx.wants("measure.tones.halfbin")) break;
         for (int H = 1; H <= 5; ++H) {
+            if (lp.reduced && H % 2 == 0) continue;
             // level patterns (index into LEVELS per harmonic)
             std::vector<std::vector<int>> pats;
             if (lp.full) {   // every combination of the first three levels; further levels derived (sum of the others + position) mod 4
@@ -382,6 +388,11 @@ static void run_measure(Ctx& ctx, bool T) {
                     for (int i = 0; i < H; ++i) p.push_back((i + r) % 4);
                     if (std::find(pats.begin(), pats.end(), p) == pats.end()) pats.push_back(p);
                 }
+                if (lp.reduced) {   // constant -10 dBc and the rotation starting at -20 dBc
+                    std::vector<int> rot;
+                    for (int i = 0; i < H; ++i) rot.push_back((i + 1) % 4);
+                    pats = {std::vector<int>((size_t)H, 0), rot};
+                }
             }
             const int b_lo = 100, b_hi = (N / 2 - 100) / (H + 1) - 1;
             const int poss[3] = {b_lo, (b_lo + b_hi) / 2, b_hi};
@@ -389,6 +400,7 @@ static void run_measure(Ctx& ctx, bool T) {
                 for (int oi = 0; oi < 5; ++oi)
                     for (size_t pt = 0; pt < pats.size(); ++pt)
                         for (int phl = 0; phl < 3; ++phl) {
+                            if (lp.reduced && ((oi & 1) || phl == 1)) continue;
                             std::string lv;
                             for (int v : pats[pt]) lv += (char)('0' + v);
                             // a component exactly half-way between two bins of the analysis grid (power-of-two record: nfft = N);
@@ -407,7 +419,7 @@ static void run_measure(Ctx& ctx, bool T) {
                             }
                             for (int h = 0; h <= H; ++h) phi.push_back(phl == 0 ? 0.0 : (phl == 1 ? 0.7 * (h + 1) * (h + 1) : 3.141592653589793 * lcg_val(1910, (uint64_t)h)));
                             const double thd_true = (double)(10 * log10l(dist));
-                            const char* wsfx = halfbin ? " [half-bin cases]" : "";
+                            const char* wsfx = halfbin ? " [half-bin cases]" : ((N & 1) ? " [odd lengths]" : "");
                             std::set<std::string> reported;   // one record per (site, kind) and case
                             auto failonce = [&](const char* site, const char* what, const std::string& obs, const std::string& exp, const P& det) {
                                 if (reported.insert(std::string(site) + "/" + what).second) ctx.fail(site, obs, exp, det);
@@ -415,7 +427,7 @@ static void run_measure(Ctx& ctx, bool T) {
                             if (halfbin) ctx.note("a component exactly half-way between two analysis bins");
                             const std::vector<double> x1 = make_tones(N, K, amp, phi);
                             ctx.note(OFF100[oi] == 0 ? "fundamental on-bin" : "fundamental off-bin");
-                            ctx.note((N & (N - 1)) ? "length not a power of two" : "length power of two");
+                            ctx.note((N & 1) ? "length odd" : ((N & (N - 1)) ? "length even, not a power of two" : "length power of two"));
                             double v_thd[5], v_sinad[5], v_snr_h[5], v_snr_all[5];
                             bool sized = true;
                             for (int sc = 0; sc < 5 && sized; ++sc) {
